@@ -25,6 +25,7 @@ func init() {
 	chk.RegisterWorker("c01include", workC01Include)
 	chk.RegisterWorker("c01root", workC01Root)
 	chk.RegisterWorker("c01models", workC01Models)
+	chk.RegisterWorker("c01inject", workC01Inject)
 }
 
 // workC01Models: F6 — every generated valid model (canonical layout), with its top-level blocks in the original and in
@@ -381,6 +382,67 @@ func workC01Include(w *run.W) {
 	}
 }
 
+// c01InjectDocs: compact documents that visit every kind of region (keyword line, parameters, annotation, schema body
+// with comments and notes, enum body, regex body, free text, explicit context, macro, include-free).
+var c01InjectDocs = []string{
+	"JSIGHT 0.3\nINFO\n  Title \"T\"\n  Description\n    te xt\nTYPE @t // a\n{ # c1\n  \"k\": 1, // n\n  \"e\": \"a\" // {enum: @e}\n}\nENUM @e\n[\"a\", // c2\n \"b\"]\nGET /p/{i} // g\n  Path\n  {\"i\": 1}\n  200 @t\n  404 regex\n  /x+/\n",
+	"JSIGHT 0.3\nMACRO @m\n(\n  Request\n    Headers\n    {\"h\": \"v\"}\n    Body any\n)\nURL /u\n  Protocol json-rpc-2.0\n  Method f /* a */\n    Description\n    (\n      t\n    )\n    Params\n    [1] # c\n    Result\n    @t\nPOST /q\n  PASTE @m\n  200\n  {} // n\nTYPE @t\n  12 // {min: 1}\n",
+}
+
+var c01InjectBytes = []byte("\x00\n\r \"#()/*@{}[\xff")
+
+type c01InjectParams struct {
+	Mixed bool `json:"mixed"` // also pairs of two different bytes (over a smaller byte set)
+}
+
+// workC01Inject: F7 — one or two bytes of a document replaced by a special byte, at every position / pair of positions.
+func workC01Inject(w *run.W) {
+	var p c01InjectParams
+	json.Unmarshal(w.Params, &p)
+	dir := workerDir(w)
+	defer os.RemoveAll(dir)
+	var n int64
+	for di, doc := range c01InjectDocs {
+		if b := impl.BuildMem("root.jst", doc); !b.OK() {
+			w.Violation("C01", "harness:inject-doc-rejected", fmt.Sprintf("inject document %d is rejected: %v", di, b.Err), nil)
+			continue
+		}
+		for i := 0; i < len(doc); i++ {
+			n++
+			if !w.Mine(n) || !w.Begin(fmt.Sprintf("inject/doc%d/pos%d", di, i)) {
+				continue
+			}
+			for _, b1 := range c01InjectBytes {
+				x := []byte(doc)
+				x[i] = b1
+				c01Total(w, "inject", impl.Single(string(x)), dir)
+				w.Nontrivial(string(x))
+				for j := i + 1; j < len(doc); j++ {
+					x[j] = b1
+					c01Total(w, "inject", impl.Single(string(x)), dir)
+					x[j] = doc[j]
+				}
+				if p.Mixed {
+					for _, b2 := range []byte("\x00\n\"(#") {
+						if b2 == b1 {
+							continue
+						}
+						for j := i + 1; j < len(doc); j++ {
+							x[j] = b2
+							c01Total(w, "inject", impl.Single(string(x)), dir)
+							x[j] = doc[j]
+						}
+					}
+				}
+			}
+			w.End()
+		}
+	}
+	if w.Shard == 0 {
+		w.Sample(map[string]any{"family": "inject", "documents": len(c01InjectDocs), "bytes": string(c01InjectBytes)})
+	}
+}
+
 // workC01Root: F5 — root-file edge cases.
 func workC01Root(w *run.W) {
 	dir := workerDir(w)
@@ -429,6 +491,7 @@ func runC01(c *chk.Ctx) {
 		{"c01seq", c01SeqParams{Len: 3}},
 		{"c01macro", c01MacroParams{Macros: 3}},
 		{"c01include", c01IncludeParams{Files: chk.Pick(c, 2, 3), MaxList: chk.Pick(c, 2, 1)}},
+		{"c01inject", c01InjectParams{Mixed: !c.Quick()}},
 	}
 	fam := map[string]any{}
 	for _, s := range steps {
@@ -446,6 +509,6 @@ func runC01(c *chk.Ctx) {
 		}
 	}
 	c.Cov["families"] = fam
-	c.Cov["rule"] = "six exhaustively enumerated families: (models) every generated valid model within the node budget with its top-level blocks in declaration and in reversed order; (bytes) all 256 bytes and all pairs of ~50 class-representative bytes after the shortest witness of every scanner control state up to the token depth; (sequences) all sequences of well-formed and malformed directive instances up to the length bound, with and without a leading JSIGHT; (macro-graphs) all PASTE graphs over k macros incl. cycles and undefined targets; (include-graphs) all include lists over files/missing/directory/empty/dot targets x placements, on a real directory; (root) nonexistent/directory/empty root and every single byte. Oracle: a catalog or a non-nil located error, no recovered panic, no fatal error, no hang. non-trivial = distinct input, counted by content hash"
+	c.Cov["rule"] = "seven exhaustively enumerated families: (inject) two compact documents covering every kind of region with one byte, and every pair of positions, replaced by each of 15 special bytes (thorough: also pairs of two different bytes); (models) every generated valid model within the node budget with its top-level blocks in declaration and in reversed order; (bytes) all 256 bytes and all pairs of ~50 class-representative bytes after the shortest witness of every scanner control state up to the token depth; (sequences) all sequences of well-formed and malformed directive instances up to the length bound, with and without a leading JSIGHT; (macro-graphs) all PASTE graphs over k macros incl. cycles and undefined targets; (include-graphs) all include lists over files/missing/directory/empty/dot targets x placements, on a real directory; (root) nonexistent/directory/empty root and every single byte. Oracle: a catalog or a non-nil located error, no recovered panic, no fatal error, no hang. non-trivial = distinct input, counted by content hash"
 	c.Assumptions = append(c.Assumptions, "time proportional to the input is not decided; only absence of hangs (20 s per-case deadline, believed after reproduction)")
 }
